@@ -41,6 +41,9 @@ def harvest(schema, acc=None, depth=0):
                 acc["numbers"].append(v)
             elif k == "pattern" and isinstance(v, str):
                 acc["strings"].update(PATTERN_EXEMPLARS.get(v, []))
+            elif k in ("type", "disallow") and ("integer" == v or (isinstance(v, list) and "integer" in v)):
+                # integer-ness of a float depends on its VALUE: always offer both kinds
+                acc["numbers"].extend([1.0, 1.5, 3.0, 0.5, 2.0, 2.5])
             else:
                 harvest(v, acc, depth + 1)
     elif isinstance(schema, list):
